@@ -187,6 +187,17 @@ CHECKS = {
         "The filter's own meaning is C02-C04's business; here only conjunction with the base is judged. SQLite only.",
         "DESIGN.md §6 C15",
     ),
+    "C12": (
+        "exhaustive (construct x position x backend) matrix + unknown-field and function-identity tables + Hypothesis typed composites; outcome-classification oracle (complete translation / library refusal / documented NotImplementedError, else violation)",
+        "Every node kind the parser can produce and every built-in function is placed in every operand position it "
+        "is well-typed in and handed to all seven backends; each outcome is classified: a complete translation "
+        "(parses under the harness SQL parser / re-parses to the same term / compiles and mentions every field and "
+        "literal), a library exception, or Core's documented NotImplementedError for navigation; anything else is a "
+        "violation. Non-field names on SQLAlchemy must raise InvalidFieldException in every position; two different "
+        "functions on the same arguments must not translate identically.",
+        "Completeness on ORM backends is judged from compiled SQL + parameters; GeoDjango cells are skipped (libraries absent).",
+        "DESIGN.md §6 C12",
+    ),
 }
 
 ALL = ["C%02d" % i for i in range(1, 21)]
